@@ -818,6 +818,17 @@ func (f *found) flush(r *lib.Run) {
 	f.m = nil
 }
 
+// replayClass reads the class recorded in a violation artefact ("" if absent).
+func replayClass(path string) string {
+	var a struct {
+		Class string `json:"class"`
+	}
+	if b, err := os.ReadFile(path); err == nil {
+		json.Unmarshal(b, &a)
+	}
+	return a.Class
+}
+
 func classesOf(vs []violation) string {
 	var cs []string
 	for _, v := range vs {
@@ -837,23 +848,29 @@ func main() {
 	if r.Replay != "" {
 		var w witness
 		lib.LoadReplay(r.Replay, &w)
+		want := replayClass(r.Replay)
+		report := func(class, detail string) {
+			if want == "" || class == want { // only the class this artefact was written for (others have their own artefacts)
+				r.Violate(class, w, detail)
+			}
+		}
 		m := newModel(w)
 		if m.hasLoop() {
 			wk := startWorker()
 			vs, died, why := wk.ask(w)
 			if died {
 				c, d := crashClass(why)
-				r.Violate(c, w, d)
+				report(c, d)
 				vs = checkTree(w, false)
 			} else {
 				wk.stop()
 			}
 			for _, v := range vs {
-				r.Violate(v.Class, w, v.Detail)
+				report(v.Class, v.Detail)
 			}
 		} else {
 			for _, v := range checkTree(w, true) {
-				r.Violate(v.Class, w, v.Detail)
+				report(v.Class, v.Detail)
 			}
 		}
 		r.Finish(lib.Coverage{Evaluations: 1, DistinctNontrivial: 1, Rule: "replay", Samples: []any{w}, Exhaustive: true})
